@@ -33,7 +33,7 @@ class C19(BaseCheck):
   REQUIRED_CLASSES = ('parent-deleted', 'parent-recreated-same-names', 'parent-recreated-different-names',
                       'callback-raised', 'burst', 'non-member-child', 'path-created-later', 'vanished-before-read', 'fast-recreate',
                       'same-name-recreated', 'blip', 'restart-same-endpoint',
-                      'blip:names-taken-by-other-servers')
+                      'blip:names-taken-by-other-servers', 'tuple-members')
   ASSUMPTIONS = ('member znodes get fresh sequential names within one incarnation of the watched path (as '
                  'ZooKeeper sequential nodes do); a name is used again only after the path itself was re-created, '
                  'or for a node that was deleted before the client could read it and is registered again with the '
@@ -120,7 +120,18 @@ class C19(BaseCheck):
         classes.add('callback-raised')
         raise RuntimeError('consumer on_leave failed')
 
-    ss = ServerSet(zk, path, on_join, on_leave, member_filter=lambda n: n.startswith('member_'))
+    factory = None
+    if rng.random() < 0.25:
+      # a custom member factory (the constructor's public hook) whose members are plain named tuples
+      from collections import namedtuple
+      TM = namedtuple('TupleMember', 'name service_endpoint additional_endpoints')
+      TE = namedtuple('TupleEndpoint', 'host port')
+      classes.add('tuple-members')
+
+      def factory(node, data):
+        d_ = json.loads(data)
+        return TM(node, TE(d_['serviceEndpoint']['host'], d_['serviceEndpoint']['port']), {})
+    ss = ServerSet(zk, path, on_join, on_leave, member_filter=lambda n: n.startswith('member_'), member_factory=factory)
 
     def truth():
       if path not in zk.nodes:
